@@ -10,7 +10,9 @@ import time
 from mc import core
 
 PID = "C16"
-PERIODS = [(0.001, 1000), (0.005, 5000), (0.02, 20000), (1 / 64, 15625)]
+PERIODS = [(0.001, 1000), (0.005, 5000), (0.02, 20000), (1 / 64, 15625),
+           # whole-microsecond periods whose binary floating-point product with 1e6 falls just below the integer
+           (1009 / 1e6, 1009), (15641 / 1e6, 15641)]
 PATIENCE = 6.0
 EARLY_POLL = 0.002  # seconds the harness gives a wait() that must block to (wrongly) return
 
